@@ -346,9 +346,17 @@ func (c *Chunker) Chunk(doc *model.Document) (*ChunkResult, error) {
 
 	// Process each section into chunks
 	chunkIndex := 0
-	for _, section := range sections {
+	var walk func(section *Section)
+	walk = func(section *Section) {
 		sectionChunks := c.chunkSection(section, &chunkIndex, doc.Metadata.Title)
 		result.Chunks = append(result.Chunks, sectionChunks...)
+		// Subsections follow their parent's own content in document order
+		for _, child := range section.Children {
+			walk(child)
+		}
+	}
+	for _, section := range sections {
+		walk(section)
 	}
 
 	// If no sections were created, chunk by paragraphs
